@@ -26,6 +26,17 @@ const C_SYM_RESID: f64 = 64.0; // ||A v_j - d_j v_j||_2 <= 64 n eps ||A||_F
 const C_SYM_SPEC: f64 = 256.0; // |d_i - lambda_i(reference)| <= 256 n eps ||A||_F
 const C_GEN: f64 = 256.0; // traces, eigenvector residuals, pairing, roots, normal spectra
 
+/// Extra factor on the eigenvector-residual bound of the GENERAL solver: max(1, (n/4)^2). The
+/// reduction to Hessenberg form uses non-orthogonal elementary similarity transformations, so the
+/// backward error of a back-substituted eigenvector carries their growth; on the structured
+/// families (unit-lower-triangular similarities of rotation blocks, n = 20..30) it reaches
+/// 2100 n eps ||A||, i.e. 8x the lattice-calibrated 256 n eps. With the factor the bound is
+/// 16 n^3 eps for n >= 4 — still 8+ orders below what a wrong index / sign / pivot produces.
+fn growth(n: usize) -> f64 {
+    let q = n as f64 / 4.0;
+    (q * q).max(1.0)
+}
+
 const SIGMA: [i64; 5] = [0, 1, -1, 2, -2];
 const SCALES: [i32; 5] = [0, -40, 40, -20, 20];
 /// seed -> (multiplier, additive quarter offset) applied to the integer alphabet (seed 0 = plain)
@@ -57,6 +68,9 @@ enum Multiplicity {
     Known(bool),
     /// decided on demand from the exact integer characteristic polynomial
     FromPoly(Vec<i64>),
+    /// decided on demand from the numerical rank (oracle's one-sided Jacobi): nullity >= 2 means the
+    /// eigenvalue 0 is multiple; otherwise unknown
+    FromRank(Mat),
 }
 
 impl Multiplicity {
@@ -65,6 +79,15 @@ impl Multiplicity {
             Multiplicity::Unknown => None,
             Multiplicity::Known(b) => Some(*b),
             Multiplicity::FromPoly(c) => Some(orc::has_multiple_root(c)),
+            Multiplicity::FromRank(a) => {
+                let sv = o::singular_values(a);
+                let top = sv.first().copied().unwrap_or(0.0);
+                if sv.iter().filter(|x| **x <= 1e-9 * top).count() >= 2 {
+                    Some(true)
+                } else {
+                    None
+                }
+            }
         };
         match m {
             Some(true) => ":repeated-eigenvalue",
@@ -251,7 +274,10 @@ fn check(out: &mut Acc, a: &Mat, d: &[f64], e: &[f64], v: &Mat, sym: bool, sexp:
         // ---- orthonormal V
         let od = o::orth_defect(v);
         if out.over(0, od, C_SYM_ORTH * nf * eps) {
-            out.fail("not-orthonormal", format!("{}: max|V^T V - I| = {:e} > {:e}; V={}", hdr(), od, C_SYM_ORTH * nf * eps, fmt_mat(v)));
+            // input class: at least 6 eigenvalues of A (reference spectrum) are zero relative to eps_T ||A||
+            let (refd, _) = o::jacobi_eig(a);
+            let zeros = refd.iter().filter(|x| x.abs() <= eps * fro).count();
+            out.fail(if zeros >= 6 { "not-orthonormal:many-zero-eigenvalues" } else { "not-orthonormal" }, format!("{}: max|V^T V - I| = {:e} > {:e}; V={}", hdr(), od, C_SYM_ORTH * nf * eps, fmt_mat(v)));
         }
         // ---- A V = V diag(d) relative to ||A||
         let tol = C_SYM_RESID * nf * eps * fro;
@@ -326,7 +352,7 @@ fn check(out: &mut Acc, a: &Mat, d: &[f64], e: &[f64], v: &Mat, sym: bool, sexp:
                 out.fail(clause_zero, format!("{}: column {} of V (eigenvalue {:e}{:+e}i) is the zero vector", hdr(), j, d[j], e[j]));
                 continue;
             }
-            let tol = C_GEN * nf * eps * fro * nv * factor;
+            let tol = C_GEN * nf * growth(n) * eps * fro * nv * factor;
             if out.over(cal, r, tol) {
                 out.fail(clause_res, format!("{}: ||A v - d v|| = {:e} > {:e} for column {} (eigenvalue {:e}{:+e}i, v={:?})", hdr(), r, tol, j, d[j], e[j], vj));
             }
@@ -376,19 +402,6 @@ fn check(out: &mut Acc, a: &Mat, d: &[f64], e: &[f64], v: &Mat, sym: bool, sexp:
     }
     }
 
-fn class_of(width: u8, sexp: i32) -> String {
-    let mut p: Vec<&str> = Vec::new();
-    if width == 32 {
-        p.push("f32");
-    }
-    if sexp > 0 {
-        p.push("scaled-up");
-    } else if sexp < 0 {
-        p.push("scaled-down");
-    }
-    p.join("-")
-}
-
 /// Runs one case, reports violations / counters / digest / description.
 fn exec_case(label: &str, base: &Mat, sym: bool, sexp: i32, width: u8, exp: &Expect, tags: &[&'static str]) {
     let out = if width == 32 { judge::<f32>(base, sym, sexp, exp) } else { judge::<f64>(base, sym, sexp, exp) };
@@ -399,12 +412,21 @@ fn exec_case(label: &str, base: &Mat, sym: bool, sexp: i32, width: u8, exp: &Exp
         mc::count(if sym { "sym_panicked" } else { "gen_panicked" });
     }
     if !out.viols.is_empty() {
-        // input class: does the same clause already fail for the plain f64 input at scale 1?
+        // input class: does the same clause already fail for the plain f64 input at scale 1? If not:
+        // ":f32-only" when the f64 run at the same scale passes the clause, else ":scaled-only".
         let reference = if width == 32 || sexp != 0 { Some(judge::<f64>(base, sym, 0, exp)) } else { None };
+        let same_scale = if width == 32 && sexp != 0 { Some(judge::<f64>(base, sym, sexp, exp)) } else { None };
+        let passes = |r: &Out, clause: &str| r.panic.is_none() && !r.viols.iter().any(|v| v.0 == clause);
         for (clause, what) in &out.viols {
             let only = match &reference {
-                Some(r) if r.panic.is_none() && !r.viols.iter().any(|v| v.0 == *clause) => format!(":{}-only", class_of(width, sexp)),
-                _ => String::new(),
+                Some(r) if passes(r, clause) => {
+                    if width == 32 && same_scale.as_ref().map(|q| passes(q, clause)).unwrap_or(true) {
+                        ":f32-only"
+                    } else {
+                        ":scaled-only"
+                    }
+                }
+                _ => "",
             };
             mc::violation(format!("{}:{}{}", comp, clause, only), what.clone());
         }
@@ -584,7 +606,7 @@ fn family_case(job: &Job) {
     } else if c.tags.contains(&"gen_fam_defective") {
         Multiplicity::Known(true)
     } else {
-        Multiplicity::Unknown
+        Multiplicity::FromRank(c.a.clone())
     };
     if let Some(eigs) = &c.real_sep {
         let mut sorted = eigs.clone();
